@@ -471,6 +471,15 @@ fn run_step(
             );
             json!({"ok": true})
         }
+        "prefixes" => {
+            // set_fallback_prefixes AFTER templates were added: whatever the call answers, the instance must stay a valid one
+            match t.set_fallback_prefixes(
+                step["list"].as_array().unwrap().iter().map(|x| x.as_str().unwrap().to_string()).collect::<Vec<_>>(),
+            ) {
+                Ok(()) => json!({"ok": true}),
+                Err(e) => err_json(&e),
+            }
+        }
         "names" => {
             let mut n: Vec<String> = t.get_template_names().map(|s| s.to_string()).collect();
             n.sort();
